@@ -31,7 +31,7 @@ BOUNDS = {"quick": {"leaves": 3, "max_items": 2, "leaf_outcomes": ["value", "ski
 CAP_S = {"quick": 150, "thorough": 1500}
 
 SINGLES = [0, 1, 2]
-GROUPS = [[0], [0, 1], [1, 0], [1, 2], [0, 1, 2], [0, 0]]
+GROUPS = [[0], [0, 1], [1, 0], [1, 2], [0, 1, 2], [0, 0], []]     # [] = an at-least-one group without members: never satisfiable
 ITEMS = SINGLES + GROUPS
 OPTS = [[], [0], [2], [1, 2]]
 FOCUS_TYPES = ["plain", "component", "combiner", "rule", "condition", "datasource", "parser"]
